@@ -57,7 +57,11 @@ def form_for(*parts):
 def key_of(i, n):
     """Key of example i in a dict-backed dataset of n examples (unique, not
     in sorted order)."""
-    return f'k{(i * 7 + 3) % 100:02d}' if n <= 100 else f'k{(i * 7 + 3) % 1009:04d}'
+    if n <= 100:
+        return f'k{(i * 7 + 3) % 100:02d}'
+    if n <= 1009:
+        return f'k{(i * 7 + 3) % 1009:04d}'
+    return f'k{(i * 7 + 3) % 100003:06d}'     # 100003 is prime: no collision below it
 
 
 def make(ld, vals, backing, upstream):
@@ -466,9 +470,10 @@ def shards(tier, seed):
         for backing in ('dict', 'list'):
             if up == 'items' and backing == 'list':
                 continue
-            out.append({'name': f'sort-{up}-{backing}', 'what': 'sort',
+            rs = up == UPSTREAM[0]          # round sizes: plain sources only
+            out.append({'name': f'sort-{up}-{backing}', 'what': 'sort', 'round_sizes': rs,
                         'upstream': up, 'backing': backing, **lim})
-            out.append({'name': f'group-{up}-{backing}', 'what': 'group',
+            out.append({'name': f'group-{up}-{backing}', 'what': 'group', 'round_sizes': rs,
                         'upstream': up, 'backing': backing, **lim})
     out.append({'name': 'keyless', 'what': 'keyless', **lim})
     out.append({'name': 'dupkeys', 'what': 'dupkeys', **lim})
@@ -493,6 +498,16 @@ def run_shard(spec, res):
             for reverse in (False, True):
                 check_sort(ld, vals, spec['backing'], spec['upstream'], reverse, res)
                 res.count('large_sorts_checked')
+        # round sizes (multiples of 10000): where code that works in blocks
+        # has its block boundaries
+        if spec.get('round_sizes'):
+            import time as _t
+            for n in (10000, 20000):
+                vals = tuple(rr.randrange(0, 9) for _ in range(n))
+                t0 = _t.monotonic()
+                check_sort(ld, vals, spec['backing'], spec['upstream'], n == 20000, res)
+                res.count('round_size_sorts_checked')
+                res.maximum('seconds_for_a_round_size_sort', int(_t.monotonic() - t0))
         res.sample({'op': 'sort', 'vals': [2, 0, 2, 1], 'backing': spec['backing'],
                     'upstream': spec['upstream'], 'reverse': True})
     elif spec['what'] == 'group':
@@ -508,6 +523,12 @@ def run_shard(spec, res):
             for idkind in ('int', 'none-mixed'):
                 check_groupby(ld, vals, spec['backing'], spec['upstream'], idkind, res)
                 res.count('large_groupbys_checked')
+        if spec.get('round_sizes'):
+            # groups of exactly 10000 / 20000 members
+            for n, k in ((30000, 3), (40000, 2)):
+                vals = tuple(i % k for i in range(n))
+                check_groupby(ld, vals, spec['backing'], spec['upstream'], 'int', res)
+                res.count('round_size_groupbys_checked')
     elif spec['what'] == 'raisingkey':
         for n in range(1, L + 1):
             for pos in range(n):
